@@ -343,3 +343,7 @@ mod test {
         assert!(OmimDisease::try_from(&bin[..31]).is_err());
     }
 }
+
+#[cfg(kani)]
+#[path = "/verif/kani/omim_disease.rs"]
+mod verif_kani;
